@@ -207,6 +207,13 @@ def run_fault(case):
                              "api": api, "progress": prog,
                              "fault": {"kind": k, "at": at, "exc": exc}})
         status, err, res = _worker(scen, tmpd, "faults", timeout=500)
+        relaunch = 0
+        while status == 4 and res and res[-1].get("deadlock") \
+                and len(res) < len(scen) and relaunch < 6:
+            relaunch += 1
+            status, err, more = _worker(scen[len(res):], tmpd,
+                                        f"faults{relaunch}", timeout=500)
+            res = res + more
         if status not in (0,):
             if not res:
                 return {"inconclusive": f"fault phase failed ({status}): "
